@@ -105,6 +105,10 @@ def to_coq(arms, total):
             {"args": "EPanicArgs", "unreachable": "EUnreachable"}.get(a["els"], "EOpaque"), b(a["tail_ok"]), b(bool(a["opaque"]))))
     out.append(";\n".join(items))
     out.append("].")
+    # the item names (statics, consts, fns, types) each arm's expansion declares, with the arm's option set: items are not hygienic
+    out.append("Definition fake_arm_items : list (optkey * list string) := [")
+    out.append(";\n".join("  ((%s, %s, %s, %s), [%s])" % (b(a["when"]), b(a["assign"]), b(a["returns"]), b(a["times"]), "; ".join(coq_str(x) for x in a.get("items", []))) for a in arms))
+    out.append("].")
     return "\n".join(out) + "\n"
 
 def regenerate(repo, coqdir):
